@@ -16,12 +16,15 @@ open Rpyc Rpyc.Calls Rpyc.Forward
 
 /-! ### the model's request table is the source's (generated: observed by running the real methods of netref.py / helpers.py against a recording connection) -/
 
+/-- `BaseNetref` has no `__getattr__`: Python would call it after every `__getattribute__` that raised AttributeError, and
+a forwarding `__getattr__` evaluates a failing attribute read on the target a second time -/
+theorem no_second_attribute_request : Gen.Netref.baseMethods.contains "__getattr__" = false := by decide
+
 /-- every request a `BaseNetref` method issues: handler and argument pattern (`$k` = k-th argument) -/
 theorem base_requests_are_modelled :
     Gen.Netref.baseRequests =
       [("__del__", "asyncreq", "self", "HANDLE_DEL", ["self.____refcount__"]),
        ("__getattribute__", "syncreq", "self", "HANDLE_GETATTR", ["$1"]),
-       ("__getattr__", "syncreq", "self", "HANDLE_GETATTR", ["$1"]),
        ("__delattr__", "syncreq", "self", "HANDLE_DELATTR", ["$1"]),
        ("__setattr__", "syncreq", "self", "HANDLE_SETATTR", ["$1", "$2"]),
        ("__dir__", "syncreq", "self", "HANDLE_DIR", []),
